@@ -72,6 +72,10 @@ def bind_args(f: FuncInfo, call: ast.Call, skip_self=False) -> Dict[str, ast.exp
         if k.arg is None:
             raise AnalysisError(f"**kwargs at line {call.lineno} cannot be bound statically")
         out[k.arg] = k.value
+    # a stand-in whose parameters were renamed answers to the reference names as well
+    for ref_name, own in getattr(f, "param_alias", {}).items():
+        if own in out and ref_name not in out:
+            out[ref_name] = out[own]
     return out
 
 
